@@ -100,6 +100,19 @@ def run(cfg, H):
         H.eq('library callable first or last gives the same image', run_([j1, user]), run_([user, j1]))
         H.eq('a list of two library callables equals one after the other', run_([j1, j2]), run_([j2], run_([j1])))
         H.eq('two library callables commute', run_([j1, j2]), run_([j2, j1]))
+
+        # a callable of the azimuthal frequency ft = atan2(fy, fx), against the same transfer function given as an array
+        def azim(ft):
+            return 2 + np.cos(ft)
+        ref = H.zeros((m, n), complex_=False)
+        for i in range(m):
+            for j in range(n):
+                fy_, fx_ = H.frac(i - m // 2, m) / dx, H.frac(j - n // 2, n) / dx
+                if i == m // 2 and j == n // 2:
+                    ref[i, j] = 3                      # atan2(0, 0) == 0
+                else:
+                    ref[i, j] = 2 + fx_ / H.sqrt(fx_ * fx_ + fy_ * fy_)
+        H.eq('a callable of ft sees ft = atan2(fy, fx)', run_([azim]), run_([ref]))
     elif k == 'tf':
         shift = cfg['shift']
         dx = H.param('dx')
